@@ -1,0 +1,110 @@
+//go:build verif
+
+package storage
+
+// Trace hooks for the verification framework in /verif (build tag "verif"). With the tag off
+// the no-op twins in verif_nohook.go are compiled instead. When VERIF_NET_TRACE names a file,
+// every durable graph write of every store in the process is appended to it as one JSON line,
+// after the write is visible in the store; events of one store carry a per-store sequence number.
+
+import (
+	"bufio"
+	"encoding/json"
+	"os"
+	"path/filepath"
+	"sync"
+
+	"github.com/MixinNetwork/mixin/common"
+	"github.com/MixinNetwork/mixin/crypto"
+)
+
+var (
+	verifMu     sync.Mutex
+	verifW      *bufio.Writer
+	verifF      *os.File
+	verifStores = map[*BadgerStore]int{}
+	verifSeqs   = map[*BadgerStore]int{}
+)
+
+func verifEmit(s *BadgerStore, ev string, m map[string]any) {
+	path := os.Getenv("VERIF_NET_TRACE")
+	if path == "" {
+		return
+	}
+	verifMu.Lock()
+	defer verifMu.Unlock()
+	if verifW == nil {
+		f, err := os.OpenFile(path, os.O_CREATE|os.O_WRONLY|os.O_APPEND, 0644)
+		if err != nil {
+			return
+		}
+		verifF, verifW = f, bufio.NewWriter(f)
+	}
+	id, ok := verifStores[s]
+	if !ok {
+		id = len(verifStores) + 1
+		verifStores[s] = id
+	}
+	verifSeqs[s]++
+	m["ev"], m["node"], m["seq"] = ev, id, verifSeqs[s]
+	// stores of one network share the parent of their data directories
+	m["net"] = filepath.Dir(filepath.Dir(s.snapshotsDB.Opts().Dir))
+	b, _ := json.Marshal(m)
+	verifW.Write(b)
+	verifW.WriteByte('\n')
+	verifW.Flush()
+}
+
+func verifShort(h crypto.Hash) string { return h.String()[:16] }
+
+func verifAfterWriteSnapshot(s *BadgerStore, snap *common.SnapshotWithTopologicalOrder) {
+	txn := s.snapshotsDB.NewTransaction(false)
+	defer txn.Discard()
+	stored, err := readSnapshotWithTopo(txn, snap.PayloadHash())
+	if err != nil || stored == nil || stored.TopologicalOrder != snap.TopologicalOrder {
+		return
+	}
+	txs, types := []string{}, []int{}
+	for _, h := range snap.Transactions {
+		txs = append(txs, verifShort(h))
+		if ver, _ := readTransaction(txn, h); ver != nil {
+			types = append(types, int(ver.TransactionType()))
+		} else {
+			types = append(types, -1)
+		}
+	}
+	verifEmit(s, "WS", map[string]any{"chain": verifShort(snap.NodeId), "round": snap.RoundNumber,
+		"hash": verifShort(snap.PayloadHash()), "pos": snap.TopologicalOrder, "txs": txs, "types": types,
+		"day": snap.Timestamp / 86400000000000, "ms": (snap.Timestamp % 86400000000000) / 1000000})
+}
+
+func verifAfterWriteConsensusSnapshot(s *BadgerStore, snap *common.Snapshot, tx *common.VersionedTransaction) {
+	last, err := s.ReadLastConsensusSnapshot()
+	if err != nil || last == nil || last.PayloadHash() != snap.PayloadHash() {
+		return
+	}
+	ref := ""
+	if len(tx.References) > 0 {
+		ref = verifShort(tx.References[0])
+	}
+	verifEmit(s, "WCS", map[string]any{"hash": verifShort(snap.PayloadHash()), "tx": verifShort(tx.PayloadHash()), "ref": ref,
+		"type": int(tx.TransactionType()), "day": snap.Timestamp / 86400000000000, "ms": (snap.Timestamp % 86400000000000) / 1000000})
+}
+
+func verifAfterRound(s *BadgerStore, ev string, node crypto.Hash, number uint64, references *common.RoundLink) {
+	head, err := s.ReadRound(node)
+	if err != nil || head == nil || head.Number != number {
+		return
+	}
+	m := map[string]any{"chain": verifShort(node), "number": number, "self": "", "external": ""}
+	if references != nil {
+		if !references.Equal(head.References) {
+			return
+		}
+		m["self"], m["external"] = verifShort(references.Self), verifShort(references.External)
+		if ext, _ := s.ReadRound(references.External); ext != nil {
+			m["extchain"], m["extnum"] = verifShort(ext.NodeId), ext.Number
+		}
+	}
+	verifEmit(s, ev, m)
+}
